@@ -298,6 +298,29 @@ func (x *Exec) assignStmt(n *ast.AssignStmt, st *St, fr *Frame, k func(*St)) {
 		})
 		return
 	}
+	if len(n.Lhs) == 1 && len(n.Rhs) == 1 {
+		if ix, ok := ast.Unparen(n.Lhs[0]).(*ast.IndexExpr); ok && isMapType(fr.typeOf(ix.X)) {
+			// m[k] = v : the key expression may contain calls
+			x.eval(ix.X, st, fr, func(st *St, m *Val) {
+				x.eval(ix.Index, st, fr, func(st *St, key *Val) {
+					x.eval(n.Rhs[0], st, fr, func(st *St, _ *Val) {
+						if m.T == nil || m.T.Sort != SRef {
+							oos("unsupported indexed assignment at %s", x.W.pos(n.Pos()))
+						}
+						x.safety(st, fr, Neq(m.T, Null), "nil-map-write", ix.Lbrack)
+						g := x.W.GhostVars["maps"]
+						x.checkWrite(st, g.Key, m.T, ix.Lbrack)
+						old := st.field(g)
+						nw := x.fresh(g.Key, old.Sort)
+						x.assume(st, Eq(nw, Store(old, m.T, Store(Select(old, m.T), key.T, True))))
+						st.heap[g.Key] = nw
+						k(st)
+					})
+				})
+			})
+			return
+		}
+	}
 	if len(n.Lhs) == len(n.Rhs) {
 		x.evalArgs(n.Rhs, st, fr, func(st *St, vals []*Val) {
 			for i, l := range n.Lhs {
@@ -316,11 +339,11 @@ func (x *Exec) assignStmt(n *ast.AssignStmt, st *St, fr *Frame, k func(*St)) {
 		// v, ok := m[k]
 		x.eval(r.X, st, fr, func(st *St, m *Val) {
 			x.eval(r.Index, st, fr, func(st *St, key *Val) {
-				if m.T == nil || m.T.Sort != SSetStr {
+				if _, isMap := fr.typeOf(r.X).Underlying().(*types.Map); !isMap || m.T == nil {
 					oos("comma-ok index of unsupported map at %s", x.W.pos(r.Pos()))
 				}
 				x.assignTo(n.Lhs[0], &Val{Ty: types.NewStruct(nil, nil), Fields: map[string]*Val{}}, st, fr, define)
-				x.assignTo(n.Lhs[1], &Val{T: Select(m.T, key.T), Ty: types.Typ[types.Bool]}, st, fr, define)
+				x.assignTo(n.Lhs[1], &Val{T: Select(x.mapSet(st, m), key.T), Ty: types.Typ[types.Bool]}, st, fr, define)
 				k(st)
 			})
 		})
@@ -387,8 +410,14 @@ func (x *Exec) assignTo(l ast.Expr, v *Val, st *St, fr *Frame, define bool) {
 	case *ast.IndexExpr:
 		m := x.evalPure(n.X, st, fr)
 		key := x.evalPure(n.Index, st, fr)
-		if m.T != nil && m.T.Sort == SSetStr {
-			x.assignTo(n.X, &Val{T: Store(m.T, key.T, True), Ty: m.Ty}, st, fr, false)
+		if _, isMap := fr.typeOf(n.X).Underlying().(*types.Map); isMap && m.T != nil && m.T.Sort == SRef {
+			x.safety(st, fr, Neq(m.T, Null), "nil-map-write", n.Lbrack)
+			g := x.W.GhostVars["maps"]
+			x.checkWrite(st, g.Key, m.T, n.Lbrack)
+			old := st.field(g)
+			nw := x.fresh(g.Key, old.Sort)
+			x.assume(st, Eq(nw, Store(old, m.T, Store(Select(old, m.T), key.T, True))))
+			st.heap[g.Key] = nw
 			return
 		}
 		oos("unsupported indexed assignment at %s", x.W.pos(n.Pos()))
@@ -955,6 +984,8 @@ func (x *Exec) forStmt(n *ast.ForStmt, st *St, fr *Frame, k func(*St)) {
 	run(st)
 }
 
+func isMapType(t types.Type) bool { _, ok := t.Underlying().(*types.Map); return ok }
+
 // seqLiteralParts returns the elements of a sequence term built from units.
 func seqLiteralParts(t *Term) ([]*Term, bool) {
 	var out []*Term
@@ -996,7 +1027,7 @@ func (x *Exec) rangeStmt(n *ast.RangeStmt, st *St, fr *Frame, k func(*St)) {
 		case rv.T != nil && rv.T.Sort.IsSeq():
 			seq = rv.T
 			count = SeqLen(seq)
-		case rv.T != nil && rv.T.Sort == SSetStr:
+		case rv.T != nil && (rv.T.Sort == SSetStr || isMapType(rty)):
 			x.rangeSet(n, rv, st, fr, k)
 			return
 		default:
